@@ -27,16 +27,46 @@ pub proof fn verif_vacuity_c01_must_fail<T: FromStr + PurlShape>(s: Seq<char>, g
         parse_post::<T>(canon_spec(g.package_type.type_text(), g.parts), r2),
     ensures false
 { }
+pub proof fn verif_vacuity_c01_typed_must_fail(s: Seq<char>, g: GenericPurl<PackageType>, r2: Result<GenericPurl<PackageType>, PackageError>)
+    requires
+        parse_post::<PackageType>(s, Ok::<GenericPurl<PackageType>, PackageError>(g)),
+        !has_key(g.parts.qualifiers.qualifiers@, checksum_key()),
+        parse_post::<PackageType>(canon_spec(g.package_type.type_text(), g.parts), r2),
+    ensures false
+{ }
+pub proof fn verif_vacuity_c10_typed_must_fail(g: GenericPurl<PackageType>, t1: PackageType, p1: PurlParts, fr: Result<(), PackageError>, r: Result<GenericPurl<PackageType>, PackageError>)
+    requires
+        handed_out_typed(g), !has_key(g.parts.qualifiers.qualifiers@, checksum_key()),
+        PackageType::finish_rel(g.package_type, g.parts, t1, p1, fr), build_post::<PackageType>(t1, p1, fr, r),
+    ensures false
+{ }
 ''',
     units=_prelude + [
         dict(id='theory.segs_lemmas', kind='raw', text=_c.theory_text('segs_lemmas.rs')),
         dict(id='theory.c07', kind='raw', text=_parse['post'][len(_c.theory_text('segs_lemmas.rs')):]),
         dict(id='theory.enc', kind='raw', text=_c.theory_text('enc.rs')),
         dict(id='theory.canon', kind='raw', text=_c.theory_text('canon.rs')),
-        dict(id='theory.inverse1', kind='raw', text=_c.theory_text('inverse1.rs')),
-        dict(id='theory.inverse2', kind='raw', text=_c.theory_text('inverse2.rs')),
-        dict(id='theory.inverse3', kind='raw', text=_c.theory_text('inverse3.rs')),
-        dict(id='theory.inverse4', kind='raw', text=_c.theory_text('inverse4.rs')),
+        dict(id='theory.inverse1', kind='raw', text=_c.lemmas_contract_only(_c.theory_text('inverse1.rs'), 'inverse')),
+        dict(id='theory.inverse2', kind='raw', text=_c.lemmas_contract_only(_c.theory_text('inverse2.rs'), 'inverse')),
+        dict(id='theory.inverse3', kind='raw', text=_c.lemmas_contract_only(_c.theory_text('inverse3.rs'), 'inverse')),
+        dict(id='theory.inverse4', kind='raw', text=_c.lemmas_contract_only(_c.theory_text('inverse4.rs'), 'inverse')),
         dict(id='theory.c01', kind='raw', text=_c.theory_text('c01.rs')),
+        # the PackageType instance: the enum, its error, the rule vocabulary and idempotence lemmas, the impl of PurlShape (contracts proved in group pkgtype)
+        _c.unit_of('pkgtype', 'T.PackageType'), _c.unit_of('pkgtype', 'T.PackageError'), _c.unit_of('pkgtype', 'T.UnsupportedPackageType'),
+        dict(id='theory.pkgtype', kind='raw', text=_c.theory_text('pkgtype.rs')[:_c.theory_text('pkgtype.rs').index('// ---- the static name table (C15) ----')]),
+        dict(id='spec.From.UnsupportedPackageType', kind='raw', text='''
+// the specification side of `impl From<UnsupportedPackageType> for PackageError` (the real body below is checked against it)
+impl vstd::std_specs::convert::FromSpecImpl<UnsupportedPackageType> for PackageError {
+    open spec fn obeys_from_spec() -> bool { true }
+    open spec fn from_spec(e: UnsupportedPackageType) -> Self { PackageError::UnsupportedType }
+}
+'''),
+        dict(id='T.From.UnsupportedPackageType', kind='block', file='purl/src/package_type.rs', header=r'impl From<UnsupportedPackageType> for PackageError',
+             rw=[('R0', r'fn from\(_: UnsupportedPackageType\)', 'fn from(_e: UnsupportedPackageType)', 1)]),
+        _c.unit_of('pkgtype', 'spec.PackageType'),
+        _c.contract_only('pkgtype', 'U-ptname.package_type'),
+        _c.contract_only('pkgtype', 'U-ptfin.finish'),
+        dict(id='theory.pypi_idem', kind='raw', text=_c.theory_text('pypi_idem.rs')),
+        dict(id='theory.c01_typed', kind='raw', text=_c.theory_text('c01_typed.rs')),
     ],
 )
